@@ -1086,6 +1086,11 @@ class Interp(Ops):
                 return VCoro(fn, args, kwargs, node)
             if local or (c is not None and (c.inline or (getattr(self, "harness_mode", False) and c.inline_in_harness))):
                 return self.run_body(fn.finfo, fn.frame, args, kwargs, None)
+            if c is None and getattr(self, "harness_mode", False) and not fn.finfo.is_async and fn.finfo.cls is None:
+                # a module-level helper the sidecar does not know, called from a body that a harness executes: its real
+                # body is executed as well (e.g. a helper factored out of encode/decode)
+                self.st.notes.append(f"helper {fn.finfo.key} executed inline inside a harness (no sidecar contract)")
+                return self.run_body(fn.finfo, fn.frame, args, kwargs, None)
             if c is None:
                 raise Unsupported(f"no contract for callee {fn.finfo.key}")
             return self.apply_contract(c, self.argmap_for(fn.finfo, c, None, args, kwargs), node, awaited=awaited)
